@@ -48,6 +48,10 @@ def make_cases(r, tier, extra_ol=()):
             add("anhydro", f"1,6-Anhydro-{s}", s, 1, 6, chiral_y=False)
         if 2 in free and 3 in free and not s.endswith("f"):
             add("anhydro", f"2,3-Anhydro-{s}", s, 2, 3, chiral_y=True)
+        if 3 in free and 4 in free and not s.endswith("f"):
+            add("anhydro", f"3,4-Anhydro-{s}", s, 3, 4, chiral_y=True)
+        if 2 in free and 4 in free and not s.endswith("f") and n == 6:
+            add("anhydro", f"2,4-Anhydro-{s}", s, 2, 4, chiral_y=True)
         if not s.endswith("f") and s not in ("GlcNAc", "Kdo"):
             for k, nm in ((5, "Pen"), (6, "Hex"), (7, "Hep"), (8, "Oct")):
                 if k > n:
@@ -115,7 +119,7 @@ def run(tier):
         report.case(name, True, {"input": name, "kind": kind, "parent": parent} if stats[kind][0] <= 1 else None)
         if not p:
             continue
-        sig_extra = {"chiral_y": c["chiral_y"]} if "chiral_y" in c else {}
+        sig_extra = {"chiral_y": c["chiral_y"], "input": name} if "chiral_y" in c else {}
         if not o:
             report.fail({"site": "skeleton", "kind": kind, "what": "empty", **sig_extra},
                         {"input": name, "parent": parent, "exc": outs[name]["exc"],
